@@ -62,3 +62,68 @@ Theorem rfc3339_roundtrip : forall strftime_o strptime_o utc tz al fs t,
 Proof. exact rfc3339_roundtrip_lemma. Qed.
 Print Assumptions rfc3339_roundtrip.
 
+
+From CCTZ Require Import FinishDefs LastWriter FmtRTScan FmtRoundTrip LastWriterEq.
+(* THE COMPOSITION, FOR EVERY LOSSLESS FORMAT (FmtRoundTrip.v): for EVERY format byte string made of literal text, %% and
+   library specifiers that lossless_fmt admits (year; month+day - %d or the blank-padded %e - or week number+weekday; hour;
+   minute; full-precision seconds; full-resolution offset; or %s; greedy items separated) and that passes last_writer_ok,
+   every zone lookup result with |offset| < 24 h, every instant and every sub-second value: parse(format(...)) = (t, fs)
+   (fs = 0 when %s is present: parse ignores everything else then) - no oracle involved, induction over the format string.
+   last_writer_ok (LastWriter.v, executable, evaluated by the driver on every generated format; last_writer_ok_x_eq) is
+   what finding F15 needs: parse() keeps the LAST value scanned for each field, so a lossy item AFTER the lossless one it
+   duplicates defeats the round trip although the format "renders" everything. *)
+Theorem lossless_roundtrip : forall strftime_o strptime_o utc tz fmt al fs t,
+  reset_to_builtin_utc 0 = OK utc ->
+  lossless_fmt fmt (al_off al) (fy (al_cs al)) = true ->
+  last_writer_ok fmt (al_off al) (fy (al_cs al)) = true ->
+  no_other fmt = true ->
+  valid_fields (al_cs al) = true -> int64 (fy (al_cs al)) -> -86400 < al_off al < 86400 ->
+  0 <= fs < 10 ^ 15 -> int64 t -> sec_of (al_cs al) = t + al_off al ->
+  exists txt, format_impl strftime_o fmt al fs t = OK txt /\
+    parse_impl strptime_o tz utc fmt txt = OK (Some (t, if has_percent_s fmt then 0 else fs)).
+Proof. exact FmtRoundTrip.lossless_roundtrip_sep. Qed.
+Print Assumptions lossless_roundtrip.
+(* the booleans the extracted driver evaluates on every generated format (LastWriter.v) are these very ones *)
+Theorem last_writer_ok_executable : forall fmt off year,
+  last_writer_ok_x fmt off year = last_writer_ok fmt off year /\ no_other_x fmt = no_other fmt /\
+  has_percent_s_x fmt = has_percent_s fmt.
+Proof. intros. split; [apply last_writer_ok_x_eq|split; [apply no_other_x_eq|apply has_percent_s_x_eq]]. Qed.
+Print Assumptions lossless_roundtrip.
+(* F15, machine-checked, one witness per family: (lossless_fmt, no strftime item, last_writer_ok) = (true, true, false) and the
+   round trip (format in a fixed zone of offset 3601 s, parse in UTC) returns another instant / fraction, or fails *)
+Theorem c07_last_writer_refuted :
+  (wit_flags fmt_bad_week 1700000000 3601 = (true, true, false) /\
+   wit_rt fmt_bad_week 1700000000 3601 123 = OK (Some (1700172800, 123))) /\
+  (wit_flags fmt_bad_frac 1700000000 3601 = (true, true, false) /\
+   wit_rt fmt_bad_frac 1700000000 3601 123 = OK (Some (1700000000, 0))) /\
+  (wit_flags fmt_bad_off 1700000000 3601 = (true, true, false) /\
+   wit_rt fmt_bad_off 1700000000 3601 123 = OK (Some (1700000001, 123))) /\
+  (wit_flags fmt_bad_e4y 1700000000000 3601 = (true, true, false) /\
+   wit_rt fmt_bad_e4y 1700000000000 3601 123 = OK None) /\
+  (wit_flags fmt_bad_e0f 1700000000 3601 = (true, true, false) /\
+   wit_rt fmt_bad_e0f 1700000000 3601 123 = OK None).
+Proof.
+  exact (conj week_after_day_refuted (conj truncating_fraction_last_refuted (conj minute_offset_last_refuted
+        (conj e4y_beside_Y_refuted e0f_before_space_refuted)))).
+Qed.
+Print Assumptions c07_last_writer_refuted.
+From CCTZ Require FormatSpecFull FmtRTScanN FmtRoundTripNames.
+(* "... or locale names instead of month/day": formats that also contain %a %A %b %B %h, under explicit premises on the two
+   oracles - strftime renders runs item-wise (C08's premises) and strptime inverts strftime on those five specifiers when
+   the next byte is not a letter (FmtRTScanN.oracle_names: it does NOT assume that a month name keeps tm_wday, which glibc
+   recomputes; hence the extra clauses of last_writer_ok_names) *)
+Theorem lossless_roundtrip_names : forall so sp strp_tm utc tz fmt al fs t,
+  reset_to_builtin_utc 0 = OK utc ->
+  (forall ts tm, forallb FormatSpecFull.run_ok ts = true ->
+     so (flat_map FormatSpecFull.tok_raw ts) tm = flat_map (FormatSpecFull.run_render so tm) ts) ->
+  (forall ts tl tm, forallb FormatSpecFull.run_ok ts = true -> FormatSpecFull.dangling tl = true ->
+     so (flat_map FormatSpecFull.tok_raw ts ++ tl) tm = flat_map (FormatSpecFull.run_render so tm) ts ++ so tl tm) ->
+  FmtRTScanN.oracle_names sp so (spec_tm (al_cs al) (al_dst al)) strp_tm ->
+  lossless_fmt fmt (al_off al) (fy (al_cs al)) = true ->
+  FmtRoundTripNames.last_writer_ok_names fmt (al_off al) (fy (al_cs al)) = true ->
+  valid_fields (al_cs al) = true -> int64 (fy (al_cs al)) -> -86400 < al_off al < 86400 ->
+  0 <= fs < 10 ^ 15 -> int64 t -> sec_of (al_cs al) = t + al_off al ->
+  exists txt, format_impl so fmt al fs t = OK txt /\
+              parse_impl sp tz utc fmt txt = OK (Some (t, if FmtRoundTripNames.has_percent_s fmt then 0 else fs)).
+Proof. exact FmtRoundTripNames.lossless_roundtrip_names. Qed.
+Print Assumptions lossless_roundtrip_names.
